@@ -90,7 +90,7 @@ def gen(rng, tier, i):
     p.opt('epoll_seed', rng.randint(1, 1 << 30))
     EOL = nl(kind)
     nusers = rng.randint(1, 3)
-    fault_kinds = [k for k in ('partial', 'wouldblock', 'eintr', 'epipe', 'close') if rng.random() < 0.6]
+    fault_kinds = [k for k in ('partial', 'wouldblock', 'eintr', 'epipe', 'close', 'enobufs') if rng.random() < 0.6]
     mid = [0]
 
     def script(n):
@@ -103,6 +103,7 @@ def gen(rng, tier, i):
                 if k == 'partial': items.append('p%d' % rng.choice((1, 2, 3, 7, 100, 1000, 4095, rng.randint(1, 4100))))
                 elif k == 'wouldblock': items.extend(['w'] * rng.randint(1, 6))
                 elif k == 'eintr': items.append('i')
+                elif k == 'enobufs': items.append('n')      # the kernel is short of buffers for a moment: nothing is closed, nothing may be lost
                 elif k == 'epipe' and rng.random() < 0.15: items.append('e')
                 else: items.append('a')
         return items
